@@ -136,10 +136,12 @@ def check(run, F, tier):
     used = set()
 
     def inl(ex, callee, info):
-        return callee.get("kind") == "Closure"
+        return callee.get("kind") == "Closure" or explore.small_private_helper(callee)
     for path, f in sorted(fns.items()):
         if f.get("kind") == "Closure":
             continue   # analysed inlined in their parent
+        if explore.small_private_helper(f):
+            continue   # analysed in context: inlined at each of its call sites
         if path == "mqtt::common::arc_payload::ArcPayload::new":
             continue   # its debug_assert is a precondition, discharged at each call site (panics.collect 'precond')
         try:
@@ -212,8 +214,7 @@ def check(run, F, tier):
         if not m:
             continue
         ver, kind = m.group(1), m.group(2)
-        ex = explore.Explorer(F, inline_pred=lambda ex, callee, info: callee.get("kind") == "Closure" or (
-            callee.get("kind") == "Fn" and not callee.get("pub") and callee["path"].startswith("mqtt::packet::") and len(callee["blocks"]) <= 14))
+        ex = explore.Explorer(F, inline_pred=lambda ex, callee, info: callee.get("kind") == "Closure" or explore.small_private_helper(callee))
         ps = ex.run(f["path"])
         zero_rejected = True
         nok = 0
